@@ -109,6 +109,18 @@ def value_root(b, l, depth=0):
     return ("local", l)
 
 
+CLEANUP_CALLS = re.compile(r"(cleanup::\w+(::\w+)*|retain|retain_mut|Vec(<.*>)?::push|Vec(<.*>)?::pop|HashSet(<.*>)?::(insert|contains|remove)|HashMap(<.*>)?::(insert|contains_key|get|remove)|ItemList(<.*>)?::(retain|index|get|contains_key|swap_remove\w*)|mem::take|Option(<.*>)?::take)$")
+
+
+def cleanup_table(prog):
+    """decision table of cleanup.rs and cleanup/*.rs: which list is filtered / which entry dropped / which name recorded under
+    which condition, the work-queue steps and the predicate helpers"""
+    from . import diag
+    A = sym.Analyzer(prog, opaque=[r"cleanup::.*", r"module::.*::(objects|compu_tabs|typedefs)"])
+    fids = sorted(f for f, b in prog.bodies.items() if b.file.startswith("a2lfile/src/cleanup") and b.kind != "Closure" and "::test" not in f)
+    return diag.module_table(prog, A, fids, CLEANUP_CALLS, cursors=False)
+
+
 def run(chk):
     prog = mir.prog()
     n = refs.check_table_current(chk, "R10-table")
@@ -392,4 +404,6 @@ def run(chk):
             if hns == ns and not worklist_idiom(prog, A, e, sid):
                 chk.add(Finding("R10-order", "R10-order::self::" + lst, "%s elements refer to elements of the same namespace (%s) and the list is filtered in a single pass: a chain is only removed one link per cleanup() call, so running cleanup twice removes more than running it once" % (lst, sorted(cont & {p for p in cont if p.split('/')[0] in hl})), prog.bodies[e[3]].where(e[4])))
     chk.rule("R10-order", "removable namespaces whose used-set is fed by elements of a removable namespace (ordering / self reference)", no, floor=3)
+    from . import diag
+    diag.compare(chk, "R10-steps", "cleanup", cleanup_table(prog), "steps of cleanup (filters, recorded names, dropped entries, work-queue operations, predicate helpers and predicate closures) with their control predicates, compared with the reviewed table", floor=60)
     chk.assumptions += ["not decided: idempotence as such (R10-order is its necessary condition)"]
